@@ -10,7 +10,7 @@
 (* the ledger properties (C01 C02 C03 C06 C16 C17) and emitted for replay  *)
 (* together with the model's predicted observables.                        *)
 (***************************************************************************)
-EXTENDS Impl, PropsRisk, IOUtils
+EXTENDS Impl, PropsAdmin, IOUtils
 
 CONSTANTS Accts, BankNames, Amounts, Ticks, MaxDepth,
           LiqTriples,   \* set of <<liquidator, liquidatee, asset bank, liab bank>>
@@ -51,7 +51,7 @@ Do(a, r, post, obs) ==
   /\ (C01(st, e, post, 0) /\ C02(st, e, post, acc, 0) /\ C03(st, e, post, 0)
       /\ C06(st, e, post, 0) /\ C16(st, e, post, 0) /\ C17(st, e, post, 0)
       /\ C04(st, e, post, 0) /\ C05(st, e, post, 0) /\ C07(st, e, post, acc7, 0) /\ C09(st, e, post, 0)
-      /\ C13(st, e, post, 0) /\ C14Bank(st, e, post, 0)) = TRUE
+      /\ C13(st, e, post, 0) /\ C14Bank(st, e, post, 0) /\ C19(st, e, post, 0)) = TRUE
   /\ sid' = TLCGet(1)
   /\ TLCSet(1, TLCGet(1) + 1)
   /\ PrintT("EDGE " \o ToString(sid) \o " " \o ToString(TLCGet(1) - 1) \o " " \o
